@@ -438,7 +438,7 @@ Lemma step_base_inv s m o :
   snd (mon_base m o (snd (step_base true false s o))) = [] /\
   Inv (fst (step_base true false s o)) (fst (mon_base m o (snd (step_base true false s o)))).
 Proof.
-  intros [ids [-> G]]. destruct o as [e ty|e|e|e ty role desc fns|e fid fn r w ps|e|e ty role|t e ty role|t|p c|p c|p|t p|t|e calls];
+  intros [ids [-> G]]. destruct o as [e ty|e|e|e ty role desc fns|e fid fn r w ps|e|e ty role|t e ty role|t|p c|p c|p|t p|t|e calls|p|add e q i];
     unfold step_base, mon_base; simpl.
   - (* NewEntity *)
     destruct (assoc_N (Npos e) (objs s)) as [o|] eqn:Eo; simpl; rewrite ?expect_ok; simpl.
@@ -582,6 +582,10 @@ Proof.
     + split; [reflexivity|]. exists ids. split; [reflexivity | exact G].
   - (* Burst: not an operation of step_base *)
     rewrite ?expect_ok. split; [reflexivity|]. exists ids. split; [reflexivity | exact G].
+  - (* Reconnect *)
+    rewrite ?expect_ok. split; [reflexivity|]. exists ids. split; [reflexivity | apply good_subs; exact G].
+  - (* During: not an operation of step_base *)
+    rewrite ?expect_ok. split; [reflexivity|]. exists ids. split; [reflexivity | exact G].
 Qed.
 
 (* a call of a burst on an existing entity object: one observation, the object stays *)
@@ -622,12 +626,32 @@ Lemma step_inv s m o :
   snd (mon m o (snd (step s o))) = [] /\ Inv (fst (step s o)) (fst (mon m o (snd (step s o)))).
 Proof.
   intros I. destruct o; try exact (step_base_inv s m _ I).
-  unfold step, step_gen, mon. destruct (burst_wf calls).
-  - destruct I as [ids [-> G]]. change (m_objs (mst_of s ids)) with (objs s).
-    destruct (assoc_N e (objs s)) as [o0|] eqn:Ho.
-    + apply calls_inv; [exists ids; split; [reflexivity | exact G] | rewrite Ho; discriminate].
-    + cbn [snd fst]. rewrite expect_ok. split; [reflexivity|]. exists ids. split; [reflexivity | exact G].
-  - cbn [snd fst]. rewrite expect_ok. split; [reflexivity | exact I].
+  - unfold step, step_gen, mon. destruct (burst_wf calls).
+    + destruct I as [ids [-> G]]. change (m_objs (mst_of s ids)) with (objs s).
+      destruct (assoc_N e (objs s)) as [o0|] eqn:Ho.
+      * apply calls_inv; [exists ids; split; [reflexivity | exact G] | rewrite Ho; discriminate].
+      * cbn [snd fst]. rewrite expect_ok. split; [reflexivity|]. exists ids. split; [reflexivity | exact G].
+    + cbn [snd fst]. rewrite expect_ok. split; [reflexivity | exact I].
+  - (* During: the entity operation, then the overlapped one *)
+    unfold step, step_gen, mon.
+    pose proof (step_base_inv s m (ent_op add e) I) as H1.
+    destruct (step_base true false s (ent_op add e)) as [s1 o1]. cbn [fst snd] in H1.
+    pose proof (fun m1 I1 => step_base_inv s1 m1 (inner_op i) I1) as H2.
+    assert (Hhd : match snd (step_base true false s1 (inner_op i)) with Blocked :: _ => False | _ => True end).
+    { destruct i; simpl; exact Logic.I. }
+    destruct (step_base true false s1 (inner_op i)) as [s2 o2]. cbn [fst snd] in H2, Hhd. cbn [snd fst].
+    rewrite Nat2N.id.
+    assert (Hf : firstn (length o1) (o1 ++ o2) = o1).
+    { rewrite firstn_app, firstn_all, Nat.sub_diag. simpl. apply app_nil_r. }
+    assert (Hs : skipn (length o1) (o1 ++ o2) = o2).
+    { rewrite skipn_app, skipn_all, Nat.sub_diag. reflexivity. }
+    rewrite Hf, Hs.
+    destruct (mon_base m (ent_op add e) o1) as [m1 v1]. cbn [fst snd] in H1. destruct H1 as [-> I1].
+    specialize (H2 m1 I1).
+    assert (Hm : (match o2 with Blocked :: b' => ([CL_STALL], b') | _ => ([], o2) end) = (@nil Z, o2)).
+    { destruct o2 as [|x o2']; [reflexivity|]. destruct x; try reflexivity. contradiction. }
+    rewrite Hm. destruct (mon_base m1 (inner_op i) o2) as [m2 v2]. cbn [fst snd] in *.
+    destruct H2 as [-> I2]. split; [reflexivity | exact I2].
 Qed.
 
 Theorem run_accepted_from s m sc ops :
@@ -702,7 +726,7 @@ Lemma step_base_rds s o :
   | _ => rds s
   end.
 Proof.
-  destruct o as [e ty|e|e|e ty role desc fns|e fid fn r w ps|e|e ty role|t e ty role|t|p c|p c|p|t p|t|e calls];
+  destruct o as [e ty|e|e|e ty role desc fns|e fid fn r w ps|e|e ty role|t e ty role|t|p c|p c|p|t p|t|e calls|p|add e q i];
     unfold step_base, create, take_id, set_objs; simpl;
     repeat (match goal with
             | |- context [match ?x with _ => _ end] => destruct x; simpl
@@ -727,8 +751,14 @@ Lemma step_rds s o :
   end.
 Proof.
   destruct o; try exact (step_base_rds s _).
-  unfold step, step_gen. destruct (burst_wf calls); [|reflexivity].
-  destruct (assoc_N e (objs s)); [apply run_calls_rds | reflexivity].
+  - unfold step, step_gen. destruct (burst_wf calls); [|reflexivity].
+    destruct (assoc_N e (objs s)); [apply run_calls_rds | reflexivity].
+  - unfold step, step_gen.
+    pose proof (step_base_rds s (ent_op add e)) as H1.
+    destruct (step_base true false s (ent_op add e)) as [s1 o1]. cbn [fst] in H1.
+    pose proof (step_base_rds s1 (inner_op i)) as H2.
+    destruct (step_base true false s1 (inner_op i)) as [s2 o2]. cbn [fst] in *.
+    rewrite H2. destruct i; simpl; rewrite H1; destruct add; reflexivity.
 Qed.
 
 (* a read that has begun keeps the entity list it took, whatever else happens, until it ends *)
